@@ -465,7 +465,11 @@ func (g *gen) pick(n int) int { return g.rnd.Intn(n) }
 
 func (g *gen) randHello() []byte {
 	phases := []string{"ready", "ready", "pending", "pending", "aborted", "foo", ""}
-	return helloMsg(phases[g.pick(len(phases))], waitings[g.pick(len(waitings))], prolongs[g.pick(len(prolongs))])
+	w := waitings[g.pick(len(waitings))]
+	if connFuzz && g.pick(3) == 0 {
+		w = nil // members that are simply missing
+	}
+	return helloMsg(phases[g.pick(len(phases))], w, prolongs[g.pick(len(prolongs))])
 }
 
 func (g *gen) randProt() []byte {
@@ -838,8 +842,10 @@ func runScenario(id int, seed int64, maxEvents int) *scenario {
 
 	// bias of this scenario: how cooperative the peer is
 	coop := 55 + g.pick(40)
+	fuzzDepth := 0 // fuzz mode: this many events first follow the protocol, so that malformed input arrives in deep states too
 	if connFuzz {
 		coop = 20 + g.pick(45)
+		fuzzDepth = g.pick(9)
 	}
 	postTerm := 0
 	for n := 0; n < maxEvents && !rn.dead; n++ {
@@ -860,6 +866,13 @@ func runScenario(id int, seed int64, maxEvents int) *scenario {
 			}
 		}
 		k := g.pick(100)
+		if connFuzz && n < fuzzDepth {
+			k = g.pick(coop + 1) // cooperative
+		} else if connFuzz && open && g.pick(3) == 0 {
+			// unusual but well-formed hello messages in whatever state the connection is in
+			rn.evMsg(g.randHello())
+			continue
+		}
 		if st == 38 && open && !rn.cbSeen && g.pick(2) == 0 {
 			// completed connection: data in both directions and the ways it can end
 			switch c := g.pick(20); {
